@@ -74,7 +74,9 @@ PickExtra ==
                      ELSE Supply(mix))
             \o (IF oamb THEN <<[Used(12, "EAMBIENTE", "CAL", Const(50)) EXCEPT !.cm = LowScopTag], Prod(12, "EAMBIENTE", Const(50)),
                                 Used(12, "ELECTRICIDAD", "CAL", Const(20))>> ELSE <<>>)
-            \o (IF oel THEN <<Used(8, "ELECTRICIDAD", "ILU", Const(60))>> ELSE <<>>)
+            \* (another service's electricity, with another profile than the DHW electricity: the PV a step leaves for DHW
+            \* is decided step by step)
+            \o (IF oel THEN <<Used(8, "ELECTRICIDAD", "ILU", [t \in 1..n |-> IF t = 1 THEN 120 ELSE 20])>> ELSE <<>>)
             \o (IF ogas THEN <<Used(9, "GASNATURAL", "CAL", Const(70))>> ELSE <<>>)
             \o (IF bcal /\ mix.bio = "out" THEN <<Used(6, "BIOMASA", "CAL", Const(30)), Out(6, "CAL", Const(25))>> ELSE <<>>)
             \o (IF bcal /\ mix.dbio THEN <<Used(7, "BIOMASADENSIFICADA", "CAL", Const(20)), Out(7, "CAL", Const(15))>> ELSE <<>>)
